@@ -13,6 +13,7 @@ OBLIGATIONS = [
     "Pkgcore.C16.highest_first",
     "Pkgcore.C16.reuse_first",
     "Pkgcore.C16.stream_order_independent",
+    "Pkgcore.C16.insoluble_sound",
 ]
 TECHNIQUE = "Lean 4 proof about the candidate streams + differential run of the real strategies and resolvers"
 TRUSTED = [
@@ -29,9 +30,13 @@ ASSUMPTIONS = [
 ]
 RULE = ("repositories of C15's generators with two source repositories (overlapping versions => ties) and one installed repository; for every "
         "target/dependency atom the real prefer_highest_version_strategy / prefer_reuse_strategy streams are compared with the Lean model and "
-        "checked against the policy with the real comparisons; single-target resolutions (upgrade, min-install) are compared with the pinned "
-        "resolution of the stream's first candidate; every resolution is repeated in-process and in child interpreters with other hash seeds; "
-        "non-trivial = stream with >= 3 candidates or a tie, or a resolution whose first candidate is resolvable among >= 2 candidates")
+        "checked against the policy with the real comparisons; SEQUENCES of 2-3 targets are resolved on one long-lived resolver (one add_atom "
+        "each, as pmerge does), a quarter of them on repositories with build-time dependency cycles escaped through any-of alternatives and "
+        "multi-version later targets; for every target of every sequence the first candidate of its stream is pinned on a fresh resolver on top "
+        "of the packages planned so far (oracle; plan accepted by C15's planOk) and, when that works, must be what the target gets; after each "
+        "sequence the resolver's insoluble memory is checked against the repositories; every sequence is repeated in-process and in a child "
+        "interpreter with another hash seed; non-trivial = stream with >= 3 candidates or a tie, or a target whose first candidate is "
+        "resolvable among >= 2 candidates")
 
 
 def split_src(rng, case):
@@ -79,7 +84,11 @@ def resolve3(case3, mode, targets, limit=900):
     sys.setrecursionlimit(limit)
     try:
         r, order = build(case3, mode)
-        ret = r.add_atoms([fx["atom"](t) for t in targets])
+        ret = ()
+        for t in targets:          # one long-lived resolver, one add_atom per target (as pmerge does)
+            ret = r.add_atom(fx["atom"](t))
+            if ret:
+                break
     except RecursionError:
         return {"status": "recursion", "ops": None}, None, None
     except Exception as e:  # noqa: BLE001
@@ -115,6 +124,116 @@ def check_c15(ctx, r, order, targets):
     return req, (U, F, merged, tg)
 
 
+def gen_cycle_case(rng):
+    """repositories with a build-time dependency cycle that is escaped through an any-of alternative, and a later multi-version
+    target whose higher version depends on something the earlier targets pulled in; targets are meant to be resolved in sequence"""
+    t, x, y, z, w, u = rng.sample(c15.NAMES, 6)
+    bt = lambda: rng.choice(["depend", "bdepend"])
+    alts = [f"a/{y}", f"a/{z}"]
+    rng.shuffle(alts)
+    hi, lo = sorted(rng.sample(range(len(c15.VERSIONS)), 2), reverse=True)
+    hi, lo = c15.VERSIONS[hi], c15.VERSIONS[lo]
+    src = {
+        f"a/{x}-1": {bt(): "|| ( %s )" % " ".join(alts)},
+        f"a/{y}-1": {bt(): f"a/{x}"},
+        f"a/{z}-1": ({"rdepend": f"a/{u}"} if rng.random() < 0.3 else {}),
+        f"a/{u}-1": {},
+        f"a/{t}-1": {rng.choice(c15.CLASSES): f"a/{x}"},
+        f"a/{w}-{hi}": {rng.choice(c15.CLASSES): "a/" + rng.choice([x, x, y, z, t])},
+        f"a/{w}-{lo}": ({} if rng.random() < 0.8 else {"rdepend": f"a/{u}"}),
+    }
+    if rng.random() < 0.3:
+        src[f"a/{x}-2"] = {bt(): f"a/{y}"}
+    vdb = {}
+    if rng.random() < 0.25:
+        vdb[f"a/{x}-1"] = {}
+    if rng.random() < 0.2:
+        vdb[f"a/{w}-{lo}"] = {}
+    targets = [f"a/{t}", f"a/{w}"]
+    if rng.random() < 0.3:
+        targets.reverse()
+    if rng.random() < 0.4:
+        targets.insert(rng.randrange(3), "a/" + rng.choice([u, z, y]))
+    for m in list(src.values()) + list(vdb.values()):
+        m.setdefault("slot", "0")
+    return {"src": src, "vdb": vdb, "targets": targets, "mode": "upgrade", "stream": "cycle-escape"}
+
+
+def snapshot(r, U, index):
+    plan, F, merged = c15.plan_of(r, U, index)
+    touched = []
+    for op in r.state.iter_ops(True):
+        if c15.pid(op.pkg) not in [c15.pid(q) for q in touched]:
+            touched.append(op.pkg)
+    return {"F": F, "merged": merged, "touched": [q for q in touched if any(c15.pid(q) == c15.pid(f) for f in F)]}
+
+
+def run_sequence(case3, mode, seq, limit=900):
+    """resolve `seq` one add_atom at a time on ONE resolver; returns (resolver, order, U, index, steps)"""
+    fx = c15.fixture()
+    r, order = build(case3, mode)
+    # candidate streams are read off a SEPARATE resolver: asking the live one is not neutral (its per-repository caching iterators are
+    # shared with the search; a fully consumed one changes what an interrupted outer iteration still sees — see notes/C16.md)
+    probe, _ = build(case3, mode)
+    U = [p for repo in order for p in repo]
+    index = {c15.pid(p): i for i, p in enumerate(U)}
+    steps = []
+    old = sys.getrecursionlimit()
+    sys.setrecursionlimit(limit)
+    try:
+        for t in seq:
+            a = fx["atom"](t)
+            before = snapshot(r, U, index)
+            presolved = bool(r.state.match_atom(a))
+            stream = list(probe.all_dbs.itermatch(a))
+            try:
+                ret = r.add_atom(a)
+            except RecursionError:
+                steps.append({"t": t, "status": "recursion"})
+                break
+            except Exception as e:  # noqa: BLE001
+                steps.append({"t": t, "status": "crash", "detail": f"{type(e).__name__}: {e}"})
+                break
+            if ret:
+                steps.append({"t": t, "status": "fail"})
+                break
+            steps.append({"t": t, "status": "ok", "presolved": presolved, "stream": stream, "before": before, "after": snapshot(r, U, index)})
+    finally:
+        sys.setrecursionlimit(old)
+    return r, order, steps
+
+
+def oracle(case3, mode, before, H, limit=900):
+    """is `H` resolvable on top of the packages planned so far?  A FRESH resolver is given the planned packages pinned one by one
+    (in plan order) and then `H` pinned; returns None or (resolver, order, pin) when that succeeds in the same context with `H` chosen"""
+    fx = c15.fixture()
+    old = sys.getrecursionlimit()
+    sys.setrecursionlimit(limit)
+    try:
+        r, order = build(case3, mode)
+        for q in before["touched"]:
+            if r.add_atom(fx["atom"]("=" + q.cpvstr)):
+                return None
+        U = [p for repo in order for p in repo]
+        index = {c15.pid(p): i for i, p in enumerate(U)}
+        ctxt = snapshot(r, U, index)
+        if sorted(map(c15.pid, ctxt["F"])) != sorted(map(c15.pid, before["F"])) or \
+                sorted(map(c15.pid, ctxt["merged"])) != sorted(map(c15.pid, before["merged"])):
+            return None            # pinning did not reproduce the same set of packages: no statement
+        pin = "=" + H.cpvstr
+        if r.add_atom(fx["atom"](pin)):
+            return None
+        if tuple(pid(H)) not in {tuple(pid(op.pkg)) for op in r.state.iter_ops(True)}:
+            return None            # the pin was satisfied by a twin of the same version from another repository
+        if not any(c15.pid(q) == c15.pid(H) for q in snapshot(r, U, index)["F"]):
+            return None            # H was put in place and displaced again (e.g. an installed package replaced by its source twin)
+        return r, order, [("=" + q.cpvstr) for q in before["touched"]] + [pin]
+    except Exception:  # noqa: BLE001 — RecursionError etc.: no witness
+        return None
+    finally:
+        sys.setrecursionlimit(old)
+
+
 def run(ctx):
     fx = c15.fixture()
     atom = fx["atom"]
@@ -127,11 +246,11 @@ def run(ctx):
     cases = []
     for c in c15.CORPUS:
         cases.append(dict(c, stream="corpus"))
-    for i in range(ctx.n(170, 4000)):
-        cases.append(c15.gen_case(rng, ("dag", "dag-twins", "wild")[i % 3]))
+    for i in range(ctx.n(130, 2400)):
+        cases.append(gen_cycle_case(rng) if i % 4 == 3 else c15.gen_case(rng, ("dag", "dag-twins", "wild")[i % 3]))
 
     stream_jobs = []     # (case3, atom string, mode, real stream, repos json)
-    res_jobs = []        # resolution-level checks
+    seq_jobs = []        # (case3, mode, targets so far, step index, step record)
     det_jobs = []        # (case3, mode, targets, in-process result)
     for case in cases:
         s1, s2, vdb = split_src(rng, case)
@@ -160,18 +279,35 @@ def run(ctx):
                         pk.append({"id": ids[tuple(pid(p))], "ver": c15.lex_ver(p.version), "rev": str(p.revision or "")})
                     repos.append({"livefs": bool(repo.livefs), "pkgs": pk})
                 stream_jobs.append((case3, t, mode, real, ids, repos))
-        # ---------------- resolutions: single target
-        t = case["targets"][0]
+        # ---------------- resolutions: a sequence of targets on ONE long-lived resolver (one add_atom each)
+        seq = list(dict.fromkeys(case["targets"]))
+        while len(seq) < 2 or (len(seq) < 3 and rng.random() < 0.4):
+            extra = c15.gen_atom(rng, [n.split("/")[1] for n in names], blockers=False) if names else None
+            if extra is None or extra in seq:
+                break
+            seq.append(extra)
         for mode in ("upgrade", "min"):
-            res, r, order = resolve3(case3, mode, [t])
-            det_jobs.append((case3, mode, [t], res))
-            ctx.count(f"resolution_{mode}_{res['status']}")
-            if res["status"] == "crash":
-                ctx.violation({"case": case3, "target": t, "mode": mode}, "resolver crashed: " + res["detail"])
-                continue
-            if res["status"] != "ok":
-                continue
-            res_jobs.append((case3, mode, t, res, r, order))
+            r, order, steps = run_sequence(case3, mode, seq)
+            okseq = [st["t"] for st in steps if st["status"] == "ok"]
+            if steps:
+                det_jobs.append((case3, mode, [st["t"] for st in steps], steps))
+            for k, st in enumerate(steps):
+                ctx.count(f"step{min(k + 1, 3)}_{mode}_{st['status']}")
+                if st["status"] == "crash":
+                    ctx.violation({"case": case3, "targets": seq[: k + 1], "mode": mode}, "resolver crashed: " + st["detail"])
+                elif st["status"] == "ok":
+                    seq_jobs.append((case3, mode, seq[: k + 1], k, st))
+            # the resolver's memory of insoluble atoms must be history independent: only atoms no repository provides
+            for x in list(getattr(r, "insoluble", ())):
+                try:
+                    prov = list(r.all_dbs.itermatch(x))
+                except Exception:  # noqa: BLE001 — restriction the repositories cannot be asked about
+                    continue
+                ctx.evaluations += 1
+                if prov:
+                    ctx.mismatch({"case": case3, "targets": okseq, "mode": mode},
+                                 f"after resolving {okseq} the resolver remembers {x} as globally insoluble although {prov[0]!r} provides it "
+                                 f"(model: markInsoluble / insoluble_sound)")
 
     # ---- streams: model vs code (edge A) and the policy on the real stream (edge C)
     replies = ctx.model([{"cmd": "c16.stream", "repos": j[5]} for j in stream_jobs])
@@ -206,47 +342,47 @@ def run(ctx):
         elif got != want:
             ctx.mismatch(case, f"real stream {[repr(p) for p in real]} = ids {got}, Lean model {want}")
 
-    # ---- resolution level: the first candidate, if resolvable, is what the target gets
+    # ---- resolution level, for EVERY target of every sequence: the first candidate of the stream, if it is resolvable on top of what is
+    # planned so far (witness: a fresh resolver, planned packages pinned, then that candidate pinned; plan accepted by planOk), is what the
+    # target gets — whatever was resolved before on the same resolver
     pinned = []
-    for case3, mode, t, res, r, order in res_jobs:
-        a = atom(t)
-        stream = list(r.all_dbs.itermatch(a))
-        if not stream:
+    for case3, mode, targets, k, st in seq_jobs:
+        if st["presolved"]:
+            ctx.count("target_already_in_plan")
             continue
-        H = stream[0]
-        pin = f"={H.cpvstr}" + (f":{H.slot}" if False else "")
-        resp, rp, orderp = resolve3(case3, mode, [pin])
-        if resp["status"] != "ok":
+        if not st["stream"]:
+            continue
+        H = st["stream"][0]
+        w = oracle(case3, mode, st["before"], H)
+        if w is None:
             ctx.count("first_candidate_not_resolvable")
             continue
-        reqp, objp = check_c15(ctx, rp, orderp, [pin])
-        req, obj = check_c15(ctx, r, order, [t])
-        chosen = {tuple(o[-1]) for o in resp["ops"]}     # packages the pinned plan itself puts in place / keeps by an add op
-        pinned.append((case3, mode, t, res, H, stream, reqp, objp + (chosen,), req, obj))
-    verdicts = ctx.model([x for p in pinned for x in (p[6], p[8])])
-    for k, (case3, mode, t, res, H, stream, reqp, objp, req, obj) in enumerate(pinned):
-        vp, vr = verdicts[2 * k], verdicts[2 * k + 1]
-        case = {"case": case3, "target": t, "mode": mode}
-        Up, Fp, mergedp, _, chosen = objp
-        U, F, merged, tg = obj
-        # the pinned atom also matches a twin of the same version in another repository: H itself has to be what the pinned plan chose
-        witness = vp != "bad-op" and vp["ok"] and tuple(pid(H)) in chosen and any(c15.pid(q) == c15.pid(H) for q in Fp)
-        if not witness:
+        rp, orderp, pins = w
+        reqp, objp = check_c15(ctx, rp, orderp, pins)
+        pinned.append((case3, mode, targets, k, st, H, reqp, objp))
+    verdicts = ctx.model([p[6] for p in pinned])
+    for (case3, mode, targets, k, st, H, reqp, objp), vp in zip(pinned, verdicts):
+        case = {"case": case3, "targets": targets, "mode": mode}
+        Up, Fp, mergedp, _ = objp
+        F, merged = st["after"]["F"], st["after"]["merged"]
+        if vp == "bad-op" or not vp["ok"]:
             ctx.count("first_candidate_not_resolvable")
             continue
-        nontriv = len(stream) >= 2
-        ctx.case(case, nontriv, key=repr((case3, t, mode, "res")))
-        ctx.count("first_candidate_resolvable")
+        stream = st["stream"]
+        ctx.case(case, len(stream) >= 2, key=repr((case3, targets, mode, "res")))
+        ctx.count("first_candidate_resolvable_step%d" % min(k + 1, 3))
         if H.repo.livefs:
             ctx.count("first_candidate_is_installed")
-        a = tg[0]
+        a = atom(targets[-1])
         present = [q for q in F if a.match(q)]
+        where = f"target #{k + 1} ({targets[-1]}) of the sequence {targets} on one resolver"
+        plan_txt = [repr(q) for q in st["after"]["touched"]]
         if mode == "upgrade":
             if not any(vcmp(q, H) == 0 for q in present):
-                ctx.violation(case, f"upgrade: highest matching version {H!r} is resolvable (pinned plan accepted by planOk) but the target got "
-                                    f"{[repr(q) for q in present]}; plan {res['ops']}")
+                ctx.violation(case, f"upgrade, {where}: highest matching version {H!r} is resolvable on top of the plan so far (pinned plan accepted "
+                                    f"by planOk) but the target got {[repr(q) for q in present]}; planned packages {plan_txt}")
             elif H.repo.livefs and not any(vcmp(q, H) == 0 and q.repo.livefs for q in present):
-                ctx.violation(case, f"upgrade: the installed instance {H!r} of the highest version was not preferred: {[repr(q) for q in present]}")
+                ctx.violation(case, f"upgrade, {where}: the installed instance {H!r} of the highest version was not preferred: {[repr(q) for q in present]}")
         else:
             if H.repo.livefs:
                 # packages matching the target may still be merged as dependencies of the kept package (e.g. another slot it needs):
@@ -254,20 +390,30 @@ def run(ctx):
                 needed = {c15.pid(q) for q in mergedp}
                 m = [q for q in merged if a.match(q) and c15.pid(q) not in needed]
                 if m or not any(q.repo.livefs for q in present):
-                    ctx.violation(case, f"min-install: target already satisfied by installed {H!r} (resolvable) but the plan merges {[repr(q) for q in m]} "
-                                        f"/ keeps {[repr(q) for q in present]}; plan {res['ops']}")
+                    ctx.violation(case, f"min-install, {where}: already satisfied by installed {H!r} (resolvable) but the plan merges "
+                                        f"{[repr(q) for q in m]} / keeps {[repr(q) for q in present]}; planned packages {plan_txt}")
             elif not any(vcmp(q, H) == 0 for q in present):
-                ctx.violation(case, f"min-install: no installed match; highest {H!r} is resolvable but the target got {[repr(q) for q in present]}")
+                ctx.violation(case, f"min-install, {where}: no installed match; highest {H!r} is resolvable but the target got {[repr(q) for q in present]}")
 
     # ---- determinism: repeat in-process, and in child interpreters with other hash seeds
-    for case3, mode, targets, res in det_jobs[: ctx.n(150, 1500)]:
-        again, _, _ = resolve3(case3, mode, targets)
+    det = []
+    for case3, mode, targets, steps in det_jobs:
+        res, _, _ = resolve3(case3, mode, targets)       # the same sequence once more, fresh resolver
         ctx.evaluations += 1
-        if again != res:
-            ctx.violation({"case": case3, "mode": mode, "targets": targets}, f"two resolutions of identical inputs differ: {res} vs {again}")
+        det.append((case3, mode, targets, res))
+        last = steps[-1]
+        if last["status"] == "ok" and res["status"] == "ok":
+            first = sorted(tuple(pid(q)) for q in last["after"]["F"] if any(c15.pid(q) == c15.pid(x) for x in last["after"]["touched"]))
+            second = sorted({tuple(o[-1]) for o in res["ops"]} - {tuple(o[1]) for o in res["ops"] if o[0] == "replace"})
+            if first != second:
+                ctx.violation({"case": case3, "mode": mode, "targets": targets}, f"two resolutions of identical inputs differ: {first} vs {second}")
+        elif last["status"] != res["status"]:
+            ctx.violation({"case": case3, "mode": mode, "targets": targets}, f"two resolutions of identical inputs differ: {last['status']} vs {res['status']}")
+    det_jobs = det
+    det_jobs = det_jobs[: ctx.n(180, 100000)]
     jobs = [[c3, m, tg] for c3, m, tg, _ in det_jobs]
     import vlib
-    for seed in ("1", "4242"):
+    for seed in (("4242",) if ctx.quick() else ("1", "4242")):
         env = dict(os.environ, PYTHONHASHSEED=seed, VERIF_REPO=vlib.REPO)
         code = ("import sys; sys.path.insert(0, %r); sys.path.insert(0, %r); import logging; logging.disable(logging.CRITICAL); "
                 "from props import c16; c16.worker()") % (os.path.join(vlib.REPO, "src"), os.path.join(vlib.VERIF, "harness"))
@@ -289,7 +435,9 @@ LEVEL_TEXT = ("Kernel-checked Lean 4 theorems about a model of the resolver's ca
               "the upgrade stream is a permutation of the candidates in PMS-descending order with the installed instance first among equal versions; "
               "its head is a maximal version; the minimal-install stream offers all installed candidates first; the stream does not depend on listing "
               "order when no two candidates tie. The model is compared with the real strategies on generated repositories, the policy is evaluated "
-              "on the real streams, and resolutions are compared with pinned resolutions and across hash seeds.")
+              "on the real streams, and resolutions are compared with pinned resolutions and across hash seeds. The resolver's memory of insoluble "
+              "atoms (which prunes candidates of every later target on the same resolver) only ever holds atoms no repository provides, for every "
+              "history of lookups (insoluble_sound); checked on the real resolver after every target sequence.")
 LEVEL_NOTE = ("Partial: candidate ordering is proved; 'the first resolvable candidate is taken' and determinism of the whole search are sampled on the "
               "real resolver. Trusted: Lean kernel, standard axioms, stability of Python's sort.")
 
